@@ -1,6 +1,6 @@
 from abc import ABCMeta, abstractmethod
 from collections import namedtuple
-from typing import Any, Callable, Dict, List, Type
+from typing import Any, Callable, Dict, List, Mapping, Type
 
 from spec_classes.methods.base import AttrMethodDescriptor
 from spec_classes.types import MISSING, Attr
@@ -8,6 +8,7 @@ from spec_classes.utils.mutation import mutate_value, protect_via_deepcopy
 from spec_classes.utils.type_checking import (
     check_type,
     type_instantiate,
+    type_label,
 )
 
 MISSING_COLLECTION = object()
@@ -154,14 +155,32 @@ class CollectionAttrMutator(metaclass=ABCMeta):
     def prepare(self):
         if self.collection is None or self.collection is MISSING:
             self.collection = self._create_collection()
-        if not check_type(self.collection, self.attr_spec.type):
+        if not check_type(self.collection, self.attr_spec.type) or (
+            self.collection and self.attr_spec.prepare_item
+        ):
+            # Build a new collection rather than preparing items in place: the
+            # incoming collection belongs to the caller and must not be mutated.
             items = self.collection
             self.collection = self._create_collection()
             self.add_items(items)
-            return self
-        if self.collection and self.prepare_item:
-            self._prepare_items()
+        elif self.collection:
+            self._check_items()
         return self
+
+    def _check_items(self):
+        # Item types of non-builtin containers (e.g. `KeyedList`) are not
+        # covered by the `check_type` call above, so check them here without
+        # writing to the (caller-owned) collection.
+        items = (
+            self.collection.values()
+            if isinstance(self.collection, Mapping)
+            else self.collection
+        )
+        for item in items:
+            if not check_type(item, self.attr_spec.item_type):
+                raise ValueError(
+                    f"Error while mutating collection `{self.attr_spec.qualified_name}`: Attempted to add an invalid item `{repr(item)}` to `{self.attr_spec.qualified_name}`. Expected item of type `{type_label(self.attr_spec.item_type)}`."
+                )
 
     @abstractmethod
     def _prepare_items(self): ...  # pragma: no cover
